@@ -51,7 +51,7 @@ func known(p gobatch.Program, got, want gobatch.Result) string { return "" }
 
 func TestClassic(t *testing.T) {
 	gobatch.Run(t, gobatch.Config{
-		Rec: vrec, Name: "c38", N: vrec.Scale(250, 2500),
+		Rec: vrec, Name: "c38", N: vrec.Scale(250, 1000),
 		Gen: Generate, NTFunc: ntFunc, Known: known,
 	})
 }
